@@ -755,7 +755,7 @@ def shrinks(d: Desc) -> Iterator[Desc]:
     """strictly 'smaller or simpler' variants of d, most aggressive first"""
     t = d["t"]
     # 0. canonical leaves
-    if not children(d) and t not in ("Columns", "Group", "Table"):
+    if not children(d) and t != "Table":  # (an empty group / empty columns is a leaf too)
         for canon in ({"t": "Text", "s": ""}, {"t": "Text", "s": "a"}):
             if d != canon and not (d == {"t": "Text", "s": ""}):
                 yield dict(canon)
